@@ -69,9 +69,10 @@ var chkEquiv = vf.Register("options_equivalence", func(k *vf.C, c *EquivCase) er
 		k.Discard("baseline run does not finish cleanly (subject of C01/C05)")
 		return nil
 	}
-	if traceHasOverflow(base) || overflowText(base.ErrText) {
-		// (generated coroutine programs may die of an overflow on purpose)
-		k.Discard("the program reaches a limit under default options already: not within the limits")
+	if strings.Contains(c.Src, "hoststackoverflow(") || strings.Contains(c.Src, "hostregoverflow(") {
+		// (generated coroutine programs may die of an overflow on purpose: the text of that error differs between the two
+		// call-stack implementations; decided from the source, not from what the implementation under test did)
+		k.Discard("the program runs into a limit on purpose: not within the limits")
 		return nil
 	}
 	t0 := maskAddrs(strings.Join(e1.GTraceStrings(base.Trace), "\n"))
